@@ -9,11 +9,14 @@ def variants(rng, n):
     """(written-out, inline+calls, global) sources that must give identical matches"""
     out = []
     for _ in range(n):
-        g = genprog.ProgGen(rng, allow_capture=False, allow_backref=False, allow_sub=False, allow_global=False,
+        with_subs = rng.random() < 0.35
+        g = genprog.ProgGen(rng, allow_capture=False, allow_backref=False, allow_sub=with_subs, allow_global=False,
                             allow_named=False, max_depth=2)
         g.reset_cmd()
         B = g.exprs(1)
-        k = rng.choice([1, 2, 2, 3])
+        if with_subs and "{" not in B:
+            B = B + " " + g.subroutine(1) + rng.choice(["", " s1", " 'a'"])
+        k = 1 if "{" in B else rng.choice([1, 2, 2, 3])
         pre = rng.choice(["", "'a' ", "maybe 'b' ", "line start "])
         suf = rng.choice(["", " 'c'", " maybe 'a'", " word end"])
         ctxk = rng.choice(["seq", "seq", "loop", "alt"])
@@ -87,12 +90,81 @@ def run(ctx):
                                        "written_matches": w["matches_list"][ti], "named_matches": model.to_sexp(got)})
                     elif exp:
                         nt.add((v["written"], k, t))
-    # histories: compile twice, run, run again in another order, run the second compilation
+    # multi-command sources (find and replace mixed, shared definitions, reused inline names): every
+    # command must behave as it does alone with its definitions
+    mc = []
+    for i in range(200 if quick else 4000):
+        g = genprog.ProgGen(rng, allow_named=False)
+        g.features = set(); g.globals = []; g.transforms = []
+        defs = []
+        for _ in range(rng.choice([0, 1, 1, 2])):
+            g.reset_cmd()
+            nm = "p%d" % (len(g.globals) + 1)
+            defs.append("set %s to pattern %s" % (nm, g.exprs(1)))
+            g.globals.append(nm)
+        if rng.random() < 0.3:
+            defs.append(g.transform())
+        cmds = []
+        for _ in range(rng.choice([2, 2, 3])):
+            c = g.command()
+            if rng.random() < 0.5:
+                g.reset_cmd()
+                c = "replace all %s with 'R' value" % g.exprs(0)
+            if g.globals and rng.random() < 0.6:
+                c = c.replace(" all ", " all %s " % rng.choice(g.globals), 1) if " all " in c else c
+            cmds.append(c)
+        texts = [genprog.gen_text(rng, "abc", 10) for _ in range(4)]
+        mc.append({"defs": defs, "cmds": cmds, "texts": texts})
+    mcases = []
+    for m in mc:
+        mcases.append({"src": "\n".join(m["defs"] + m["cmds"]), "texts": m["texts"]})
+        for c in m["cmds"]:
+            mcases.append({"src": "\n".join(m["defs"] + [c]), "texts": m["texts"]})
+    mg, mdis, mstats = corr_core.run_core(mcases, shards=12, spec=False)
+    report_core_disagreements(ctx, mcases, mdis, in_scope=in_scope_core, known=known_core)
+    pos = 0
+    for m in mc:
+        whole = mg[pos]
+        alone = mg[pos + 1: pos + 1 + len(m["cmds"])]
+        src_whole = mcases[pos]["src"]
+        pos += 1 + len(m["cmds"])
+        ok_alone = all("bc" in a for a in alone)
+        if ("bc" in whole) != ok_alone and not any(x.get("panic") for x in [whole] + alone):
+            if all(("err" in a and a.get("errclass") == "gen") or "bc" in a for a in alone) and ("bc" in whole or whole.get("errclass") == "gen"):
+                ctx.violation("a multi-command source is accepted/rejected differently from its commands taken alone with their definitions",
+                              {"source": src_whole, "whole_error": whole.get("err"), "alone_errors": [a.get("err") for a in alone]})
+            continue
+        if "percmd_list" not in whole and "matches_list" not in whole:
+            continue
+        nd = len(m["defs"])
+        # per-command results of the whole source: rerun with percmd through a dedicated call
+        for ti, t in enumerate(m["texts"]):
+            cat = []
+            good = True
+            for a in alone:
+                if "matches_list" not in a or ti >= len(a["matches_list"]):
+                    good = False
+                    break
+                cat += parse_matches(a["matches_list"][ti])
+            if not good or "matches_list" not in whole or ti >= len(whole["matches_list"]):
+                continue
+            ev += 1
+            if parse_matches(whole["matches_list"][ti]) != cat:
+                ctx.violation("the result of a multi-command source is not the concatenation of its commands taken alone with their definitions",
+                              {"source": src_whole, "text": t, "whole": whole["matches_list"][ti], "concatenation_of_alone": model.to_sexp(cat)})
+                break
+            elif cat:
+                nt.add((src_whole, "multi", t))
+    # histories: compile twice (other sources, possibly rejected, compiled in between), run, run again in another order
     hc = []
+    junk = ["find all @/(x|(y)/", "find all @/(a)(b)/ 'c", "set q to pattern {'a'} = s s\nfind all q", "find all ((", "find all @/((a)b)+/"]
     for i in range(150 if quick else 3000):
         g = genprog.ProgGen(rng)
         src = g.program()
-        hc.append({"op": "hist", "src_hex": vh.hexs(src), "texts_hex": [vh.hexs(genprog.gen_text(rng)) for _ in range(4)], "_src": src})
+        if rng.random() < 0.4:
+            src += "\nfind all " + rng.choice(["@/(a|b)c\\1/", "@/(a)(b)?/", "@/((a)b)\\2/"])
+        hc.append({"op": "hist", "src_hex": vh.hexs(src), "texts_hex": [vh.hexs(genprog.gen_text(rng)) for _ in range(4)],
+                   "between_hex": [vh.hexs(rng.choice(junk)) for _ in range(rng.choice([0, 1, 2]))], "_src": src})
     hres = vh.run_cases([{k: v for k, v in c.items() if k != "_src"} for c in hc], shards=8)
     for c, r in zip(hc, hres):
         if "first" not in r:
@@ -100,11 +172,16 @@ def run(ctx):
         ev += len(r["first"])
         if not (r["first"] == r["again"] == r["other"]):
             ctx.violation("repeated runs / a second compilation of the same source give different results",
-                          {"source": c["_src"], "first": r["first"], "again": r["again"], "other": r["other"]})
+                          {"source": c["_src"], "compiled_in_between": [bytes.fromhex(x).decode("latin-1") for x in c.get("between_hex", [])],
+                           "first": r["first"], "again": r["again"], "other": r["other"]})
         if model.canon_loop_ids(r.get("bc", "")) != model.canon_loop_ids(r.get("bc2", "")) or \
            model.canon_loop_ids(r.get("bc", "")) != model.canon_loop_ids(r.get("bc_after", "")):
             ctx.violation("bytecode differs between two compilations of one source, or was modified by running it",
-                          {"source": c["_src"], "bc": r.get("bc"), "bc2": r.get("bc2"), "bc_after": r.get("bc_after")})
+                          {"source": c["_src"], "compiled_in_between": [bytes.fromhex(x).decode("latin-1") for x in c.get("between_hex", [])],
+                           "bc": r.get("bc"), "bc2": r.get("bc2"), "bc_after": r.get("bc_after")})
+        if "second_compile_failed" in r:
+            ctx.violation("a source accepted once is rejected when compiled again", {"source": c["_src"],
+                          "compiled_in_between": [bytes.fromhex(x).decode("latin-1") for x in c.get("between_hex", [])]})
     ctx.coverage["evaluations"] = ev + stats["attempt_texts"]
     ctx.coverage["distinct_nontrivial"] = len(nt)
     ctx.coverage["agreement"] = stats
